@@ -892,6 +892,34 @@ Section Flat.
       reflexivity.
   Qed.
 
+  (** With expand_parserfns off (C13) an #if call is not evaluated: it is emitted as written - the function's name, the
+      condition without the blanks around it, and the other arguments untouched (not expanded either). *)
+  Theorem if_switched_off stk ea cond more :
+    (length stk < 100)%nat -> plain cond = true -> o_parserfns opts = false ->
+    exists F, forall fuel, (F <= fuel)%nat ->
+      expand_T fuel stk ea ((if_head ++ cond) :: more)
+      = Some (chars s_lbrace2 ++ chars [35; 105; 102] ++ [Ch 58] ++ join_i vbar (lstrip_i (rstrip_i cond) :: more)
+              ++ chars s_rbrace2).
+  Proof.
+    intros Hdepth Hc Hpf.
+    exists (length cond + 20)%nat.
+    intros fuel Hf. destruct fuel as [|f]; [lia|]. destruct f as [|f']; [lia|].
+    rewrite expand_T_S. replace (Nat.leb 100 (length stk)) with false by (symmetry; apply Nat.leb_gt; exact Hdepth).
+    assert (Hp : plain (if_head ++ cond) = true) by (rewrite plain_app, Hc; reflexivity).
+    rewrite (expand_recurse_plain pfnames lib opts _ Hp) by (rewrite app_length; cbn; lia).
+    cbv beta iota zeta. rewrite strip_if_head.
+    assert (Hcodes : codes (if_head ++ rstrip_i cond) = 35 :: 105 :: 102 :: 58 :: codes (rstrip_i cond)) by reflexivity.
+    rewrite Hcodes. cbn [index_of N.eqb Pos.eqb firstn skipn].
+    assert (Hcanon : Expand.canon_pf pfnames [35; 105; 102] = [35; 105; 102]).
+    { unfold Expand.canon_pf. cbn [collapse_ws_us is_space N.eqb orb]. destruct (in_names _ pfnames); reflexivity. }
+    replace (35 =? 58) with false by reflexivity. replace (105 =? 58) with false by reflexivity.
+    replace (102 =? 58) with false by reflexivity. replace (58 =? 58) with true by reflexivity.
+    cbv beta iota. cbn [firstn]. rewrite Hcanon.
+    assert (Hcl : Expand.classify_pf pfnames [35; 105; 102] = PfIf) by reflexivity. rewrite Hcl.
+    cbn [skipn if_head chars s_if map app].
+    rewrite expand_pf_S. rewrite Hpf. cbn [negb]. reflexivity.
+  Qed.
+
   (** #ifeq with plain arguments (C04): {{#ifeq: x | y | a | b}} is a when x and y, trimmed, are equal (ParserFns.mw_equal:
       as numbers when both are numbers, else as text), else b. *)
   Notation ifeq_head := FlatCall.ifeq_head.
